@@ -250,14 +250,16 @@ Record WI (w : world) : Prop := mkWI {
   wi_out : forall o, In o (w_outbox w) -> entry_at (w_hist w) o;
   wi_logh : forall e, In e (w_log w) -> exists r, In r (w_hist w) /\ ev_of e (route 0%N r);
   wi_pub : forall k r, nth_error (w_hist w) k = Some r -> In (route (N.of_nat k + 1)%N r) (w_outbox w) \/ published w r;
-  wi_one : older_finished (w_recs w)
+  wi_one : older_finished (w_recs w);
+  (* the outbox never holds two entries with one ID *)
+  wi_oids : NoDup (map o_id (w_outbox w))
 }.
 
 Lemma WI_frame (w w' : world) :
   w_recs w' = w_recs w -> w_nrun w' = w_nrun w -> w_now w' = w_now w -> w_log w' = w_log w -> w_outbox w' = w_outbox w ->
   w_procs w' = w_procs w -> w_hist w' = w_hist w -> w_noid w' = w_noid w -> WI w -> WI w'.
 Proof.
-  intros E1 E2 E3 E4 E5 E6 E7 E8 [H1 H2 H3 H4 H5 H6 H7 H8 H9 H10 H11].
+  intros E1 E2 E3 E4 E5 E6 E7 E8 [H1 H2 H3 H4 H5 H6 H7 H8 H9 H10 H11 H12].
   constructor; unfold published in *; rewrite ?E1, ?E2, ?E3, ?E4, ?E5, ?E6, ?E7, ?E8; assumption.
 Qed.
 
@@ -374,6 +376,11 @@ Proof.
       split; [symmetry; now apply N.eqb_eq|]. intros Hf. rewrite Hf in C1. exact C1.
     + apply older_finished_snoc; [exact Hone|]. rewrite lookup_run_eq in Hnew. destruct (Hnew E) as [_ Hl].
       intros l Hl'. apply Hl. assert (Ef : r_fid r' = r_fid r) by (unfold r', stamp; destruct (ec_stamp c); reflexivity). rewrite Ef in Hl'. exact Hl'.
+  - (* outbox IDs stay distinct: the new entry's ID is larger than every ID in the outbox *)
+    rewrite map_app. cbn. apply NoDup_snoc; [apply (wi_oids w HW)|].
+    intros Hin. apply in_map_iff in Hin as (o & Ho1 & Ho2). destruct (wi_out w HW o Ho2) as (x & Hx & _ & Hle).
+    assert (Hlt : (N.to_nat (o_id o) - 1 < length (w_hist w))%nat) by (apply nth_error_Some; congruence).
+    rewrite Ho1, (wi_noid w HW) in Hlt. lia.
 Qed.
 
 End Inv.
